@@ -49,13 +49,17 @@ CHECKS.update({
                 "iteration order chosen by the explorer) replaces std HashMap in the three parser modules under --cfg enum_tools_verif; sources of "
                 "per-process state outside the seam are only caught by the textual audit and by the supplementary fresh-process replication (sampling).",
                 technique="exhaustive exploration of all iteration orders (n! per map iteration) of every hash map of the real parser via a controlled scheduler, prefix-replay DFS; replayed schedules asserted deterministic",
-                text="For every declaration of the family (all n! declaration orders for n<=3/4, all subsets of a 6-window up to n=5/6, a 7-variant enum in "
-                     "thorough; full feature sets in table/match modes, split attributes, name/vis parameters) every assignment of iteration orders to the "
-                     "parser's map iterations is executed on the real parser+generator; exactly one distinct expansion text is required."),
+                text="For every declaration of the family (all n! declaration orders for n<=3/4, all subsets of a 6-window up to n=5/6, 7- and 8-variant enums in "
+                     "thorough, truncation-alias sets, ascending declarations; full feature sets in table/match modes, sorted(value)/sorted(name,value), split "
+                     "attributes, name/vis parameters) every assignment of iteration orders to the parser's map iterations is executed on the real "
+                     "parser+generator (maps with more than 7 entries: a fixed O(n^2) family of permutations, reported as capped); exactly one distinct "
+                     "expansion text is required; the same schedule must reproduce; the same declaration must expand identically after different histories "
+                     "of earlier expansions in the process."),
     "C18": dict(engine="E3 subjects+driver", design="§5 C18", note=E3_NOTE,
                 technique="exhaustive enumeration of all n! declaration orders x all admissible reprs per value set; per-item transcript hashes compared within each value set and against the reference model",
-                text="Every value set of size <=3 (quick) / <=4 from a 6-window, all declaration orders, every repr that can hold it, full feature set in "
-                     "table and match modes; names are attached to values. All subjects of a value set must produce identical transcripts."),
+                text="Every value set of size <=3 (quick) / <=4 from a 6-window plus sets touching the i8/u8/i16/u16/(i32/u32/i64) limits and 300-value sets, all "
+                     "declaration orders (large sets: two), every repr that can hold it, full feature set in table, match and auto modes; names are attached to "
+                     "values. All subjects of a value set must produce identical transcripts."),
 })
 
 CHECKS.update({
@@ -85,8 +89,9 @@ CHECKS.update({
                      "(nightly) as an interpreter with UB detection over the executions the driver enumerates - the coverage statement is the enumeration, not a proof.",
                 technique="the bounded exhaustive drivers of C01-C08 (all 8/16-bit arguments, string neighbourhoods, all variant pairs, iterator operation histories) executed on expansions with a monitor on every unchecked assumption, and on the unmodified derive under the Miri interpreter",
                 text="Every transmute, unwrap_unchecked and assume_init of the generated code is checked at the moment it executes, for every argument / pair / history the "
-                     "drivers enumerate, in five mode sets that reach every unsafe site, on F(2,2,2)+L (quick) / F(3,3,3)+L+H (thorough); every returned value must carry a "
-                     "declared discriminant. A Miri slice (quick: 13 subjects; thorough: 70+) covers unsafe operations the monitor list does not know."),
+                     "drivers enumerate, in six mode sets that reach every unsafe site, on F(2,2,2)+L+P+A (quick) / +F(3,3,3)+R+M, all reprs (thorough, also an optimised build); "
+                     "every returned value must carry a declared discriminant. A Miri slice (quick: the 3 archetypes x mode sets; thorough: +F(1,2,1) x 4 "
+                     "reprs) covers unsafe operations the monitor list does not know."),
 })
 
 HOOKS = {
